@@ -28,10 +28,23 @@ func vCachePool() []vOp {
 	}
 }
 
+// vMixedPool: operations that select introspection fields next to ordinary ones (the gateway then splits
+// the root steps of the plan, which the cache may hand out again)
+func vMixedPool() []vOp {
+	return []vOp{
+		{q: `{ __schema { queryType { name } } me { name phone } }`},
+		{q: `mutation { __typename saveHuman(name: "x") { name } }`},
+		{q: `{ me { name } }`},
+	}
+}
+
 func VerifCacheGateway() {
 	vK = 1
 	vMinLen = 1
 	pool := vCachePool()
+	if verifParam("mixedpool", 0) == 1 {
+		pool = vMixedPool()
+	}
 	f := vNewFed(vReadmeWorld(1), []GatewayOption{WithPlanner(planner.NewCachedPlanner(1000000000))}, vSA, vSB, vSC)
 	n := verifParam("hmax", 2)
 	for r := 0; r < n; r++ {
@@ -51,6 +64,13 @@ func VerifCacheGateway() {
 		data, _ := out["data"].(map[string]interface{})
 		verifAssert(data != nil, "data is present")
 		if data != nil {
+			for k := range exp {
+				if len(k) > 2 && k[:2] == "__" && k != "__typename" {
+					verifAssert(data[k] != nil, "introspection fields next to ordinary fields are answered: "+k)
+					delete(exp, k)
+					delete(data, k)
+				}
+			}
 			vPrune(data)
 			vAssertSame("", data, exp)
 		}
